@@ -1188,6 +1188,8 @@ pub fn c11_grid(ctx: &mut Ctx) {
     stacks!(W8d; 0, 7, 8, 9, 15, 16, 33);
     stacks!(W8; 0, 7, 8, 9, 15, 16, 33, 64);
     stacks!(T12d; 0, 11, 12, 13, 23, 24, 49);
+    // size a power of two and larger than the alignment
+    stacks!(S16d; 0, 15, 16, 17, 31, 32, 47, 48, 64, 100);
     stacks!(S24d; 0, 23, 24, 25, 47, 48, 97);
     stacks!(L160d; 0, 159, 160, 161, 319, 320, 641);
     stackns!(Z0d; (0, 0), (5, 0), (5, 3));
@@ -1195,6 +1197,7 @@ pub fn c11_grid(ctx: &mut Ctx) {
     stackns!(P3d; (1, 2), (1, 3), (2, 5), (2, 6), (4, 11), (4, 12), (4, 13));
     stackns!(W8d; (0, 0), (1, 7), (1, 8), (2, 15), (2, 16), (4, 31), (4, 32), (4, 33), (3, 64));
     stackns!(T12d; (1, 11), (1, 12), (3, 35), (3, 36), (3, 37));
+    stackns!(S16d; (1, 15), (1, 16), (2, 31), (2, 32), (3, 48), (3, 64));
     stackns!(S24d; (1, 23), (1, 24), (2, 47), (2, 48), (4, 95), (4, 96), (4, 97));
     stackns!(L160d; (1, 159), (1, 160), (2, 319), (2, 320), (2, 321));
 }
@@ -1971,3 +1974,109 @@ pub fn c05_live_growth(ctx: &mut Ctx) {
     run::<S24d, GuardMem>(&mut sp);
     run::<L160d, GuardMem>(&mut sp);
 }
+
+// ---------------------------------------------------------------------------------------------
+// Getters across backends, including element layouts the stack backends cannot hold aligned (no element is ever stored in
+// those): element_layout / element_typeid / element_drop / element_clone survive every clone_empty / clone_empty_in hop, and a
+// heap vector at the end of such a chain allocates with the element's alignment.
+
+#[cfg(feature = "alloc")]
+pub fn meta_grid(ctx: &mut Ctx) {
+    use any_vec::mem::Heap;
+    if cfg!(miri) {
+        return;
+    }
+    let mut sp = Sp::new(ctx, "meta-grid", "getters-across-backends".into());
+    sp.ctx.ordinal = 0;
+    monalloc::set_mode(monalloc::MODE_GUARD);
+    let _ = monalloc::drain_events();
+    type Tr = dyn Cloneable;
+    fn meta<T: Elem, M: MemBuilder>(v: &AnyVec<Tr, M>, what: &str) -> Result<(usize, usize), (&'static str, String)> {
+        if v.element_layout() != Layout::new::<T>() {
+            return Err(("meta", format!("{what}: element_layout() is {:?}, the element type has {:?}", v.element_layout(), Layout::new::<T>())));
+        }
+        if v.element_typeid() != TypeId::of::<T>() {
+            return Err(("meta", format!("{what}: element_typeid() is not the element type")));
+        }
+        if v.len() != 0 || !v.is_empty() {
+            return Err(("meta", format!("{what}: an empty clone reports len {} is_empty {}", v.len(), v.is_empty())));
+        }
+        let tv = v.downcast_ref::<T>().ok_or(("meta", format!("{what}: downcast_ref::<T>() is None")))?;
+        if tv.len() != 0 || !tv.is_empty() || tv.capacity() != v.capacity() {
+            return Err(("meta", format!("{what}: typed view reports len {} capacity {} (vector: 0 / {})", tv.len(), tv.capacity(), v.capacity())));
+        }
+        Ok((v.element_drop().map_or(0, |f| f as usize), v.element_clone() as usize))
+    }
+    fn hops<T: Elem, M: MemBuilder + Default>(sp: &mut Sp, mname: &str, fixed: Option<usize>) {
+        if !sp.take() {
+            return;
+        }
+        reg::reset();
+        let opsig = "clone_empty_in-chain";
+        let desc = format!("{}:{mname}|new_in -> clone_empty -> clone_empty_in(Stack/StackN/Empty/Guard/Heap) -> Heap", T::NAME);
+        monalloc::window_open();
+        let r = guarded(|| -> Result<(), (&'static str, String)> {
+            let v: AnyVec<Tr, M> = AnyVec::new_in::<T>(M::default());
+            let fns = meta::<T, M>(&v, "a fresh vector")?;
+            if let Some(c) = fixed {
+                if v.capacity() != c {
+                    return Err(("capacity", format!("a fresh {mname} vector of {} reports capacity {} (expected {c})", T::NAME, v.capacity())));
+                }
+            }
+            let same = |got: (usize, usize), what: &str| if got == fns { Ok(()) } else { Err(("meta", format!("{what}: element_drop / element_clone differ from the source's"))) };
+            same(meta::<T, M>(&v.clone_empty(), "clone_empty()")?, "clone_empty()")?;
+            let a = v.clone_empty_in(Stack::<4096>);
+            same(meta::<T, _>(&a, "clone_empty_in(Stack)")?, "clone_empty_in(Stack)")?;
+            let b = a.clone_empty_in(StackN::<16, 4096>);
+            same(meta::<T, _>(&b, "clone_empty_in(Stack).clone_empty_in(StackN)")?, "clone_empty_in(StackN)")?;
+            let c = b.clone_empty_in(Empty);
+            same(meta::<T, _>(&c, "... .clone_empty_in(Empty)")?, "clone_empty_in(Empty)")?;
+            let d = c.clone_empty_in(GuardMem::default());
+            same(meta::<T, _>(&d, "... .clone_empty_in(Guard)")?, "clone_empty_in(Guard)")?;
+            let mut h = d.clone_empty_in(Heap);
+            same(meta::<T, _>(&h, "... .clone_empty_in(Heap)")?, "clone_empty_in(Heap)")?;
+            // the heap vector at the end of the chain is a working vector of T (heap storage is aligned for any T)
+            let base0 = h.as_bytes().as_ptr() as usize;
+            if base0 % align_of::<T>() != 0 {
+                return Err(("align", format!("the empty heap vector's storage pointer {base0:#x} is not aligned to {}", align_of::<T>())));
+            }
+            let mask = if T::ID_BITS == 0 { 0 } else { (1u64 << T::ID_BITS.min(32)) - 1 };
+            for i in 1..=3u64 {
+                h.push(AnyValueWrapper::new(T::make(i & mask)));
+            }
+            let base = h.as_bytes().as_ptr() as usize;
+            if base % align_of::<T>() != 0 {
+                return Err(("align", format!("heap storage {base:#x} of a vector cloned through the stack backends is not aligned to {}", align_of::<T>())));
+            }
+            let h2 = h.clone();
+            match (snap_ids::<T, _, _>(&h), snap_ids::<T, _, _>(&h2)) {
+                (Ok(x), Ok(y)) if x == vec![1 & mask, 2 & mask, 3 & mask] && x == y => {}
+                other => return Err(("model", format!("the heap vector at the end of the chain and its clone hold {other:?}"))),
+            }
+            Ok(())
+        });
+        monalloc::window_reset();
+        match r {
+            Ok(Ok(())) => {}
+            Ok(Err((kind, m))) => sp.viol(kind, opsig, m, &desc),
+            Err(m) => sp.viol("meta", opsig, format!("panicked: {m}"), &desc),
+        }
+        sp.drain_alloc(opsig, &desc);
+        sp.drain_reg(opsig, &desc);
+        sp.ctx.stats.bump("meta_chains", 1);
+        sp.done(&desc, true, opsig);
+    }
+    macro_rules! all_backends {
+        ($($t:ty),*) => { $(
+            hops::<$t, Heap>(&mut sp, "Heap", None);
+            hops::<$t, GuardMem>(&mut sp, "Guard", None);
+            hops::<$t, Stack<4096>>(&mut sp, "Stack<4096>", Some(if size_of::<$t>() == 0 { usize::MAX } else { 4096 / size_of::<$t>() }));
+            hops::<$t, StackN<16, 4096>>(&mut sp, "StackN<16,4096>", Some(16));
+            hops::<$t, Empty>(&mut sp, "Empty", Some(0));
+        )* };
+    }
+    all_backends!(Z0, Z0d, Z0a64, U1d, U2, P3d, W8d, T12d, S16d, Q16, S24d, A32d, A64d, M40d, L160d);
+    monalloc::set_mode(monalloc::MODE_OFF);
+}
+#[cfg(not(feature = "alloc"))]
+pub fn meta_grid(_ctx: &mut Ctx) {}
